@@ -118,6 +118,9 @@ v('C14', 'fire', 'inertial_sensor.py', '                if actual != nominal:', 
 v('C14', 'silent', 'inertial_sensor.py', '                if actual != nominal:', '                if not actual == nominal:', 'same exact test, other spelling')
 v('C14', 'silent', 'inertial_sensor.py', '                if actual != nominal:', '                if actual - nominal != 0:', 'same exact test on the deviation')
 FL = 'filters.py'
+v('C11', 'fire', FL, '        pva_old = trajectory_nominal.iloc[index]', '        pva_old = trajectory.iloc[index]', 'survey: propagation matrices at the computed trajectory')
+v('C11', 'fire', FL, 'increments.loc[np.nextafter(time, next_time) : next_time]', 'increments.loc[time : next_time]', 'averaging batch includes the increment of the previous interval')
+v('C11', 'fire', FL, 'increments.loc[np.nextafter(time, next_time) : next_time]', 'increments.loc[np.nextafter(time, next_tim) : next_time]', 'a misspelt name on the branch that needs increments')
 v('C12 C11', 'fire', FL, '                               azimuth_sd, error_model, gyro_model, accel_model)\n\n    ins_block', '                               azimuth_sd, error_model, accel_model, accel_model)\n\n    ins_block', 'survey (exit 2 before): the accelerometer model in the gyro slot of the initial covariance')
 v('C13 C02', 'fire', K, 'velocity_n[j + 1, 2] = 0.0', 'velocity_n[j + 1, 3] = 0.0', 'survey (exit 2 before): out-of-bounds store in the compiled kernel')
 v('C01', 'fire', K, 'xi[0] = -chi1 * dt', 'xi[1] = -chi1 * dt', 'survey (exit 2 before): an element of an np.empty vector is read but never written')
